@@ -145,10 +145,17 @@ class NP:
     dims = list(st.shape.dims)
     rank = len(dims)
     # expand ellipsis
-    n_real = sum(1 for it in items if not (isinstance(it, VNone) or (isinstance(it, VOpaque) and it.what == '...')))
+    def consumed(it):
+      if isinstance(it, VNone) or (isinstance(it, VOpaque) and it.what == '...'):
+        return 0
+      if isinstance(it, VArr) and cx.st(it).kind == 'b' and cx.st(it).shape.concrete:
+        return max(1, cx.st(it).shape.rank)        # a boolean mask consumes as many axes as it has
+      return 1
+    n_real = sum(consumed(it) for it in items)
     if any(isinstance(it, VOpaque) and it.what == '...' for it in items):
       k = [i for i, it in enumerate(items) if isinstance(it, VOpaque) and it.what == '...'][0]
       items = items[:k] + [VSlice(None, None, None)] * (rank - n_real) + items[k + 1:]
+      n_real = sum(consumed(it) for it in items)
     if n_real > rank:
       cx.ex.raise_(p, 'IndexError', 'too many indices at line %s' % cx.line())
       return []
@@ -164,6 +171,8 @@ class NP:
         out_dims.append(z3.IntVal(1))
         pattern.append(('new',))
         continue
+      if axis >= len(dims):
+        raise Unsupported('index with more items than axes (line %s)' % cx.line())
       d = dims[axis]
       if isinstance(it, VInt):
         inb = z3.And(it.t >= -d, it.t < d)
@@ -181,6 +190,11 @@ class NP:
         else:
           out_dims.append(self.slice_len(cx, it, d))
           pattern.append(('slice', it, axis))
+      elif isinstance(it, VListRef):
+        is_view = False
+        if adv_dims is None:
+          adv_dims, adv_pos = [p.lists[it.lid]['n']], len(out_dims)
+        pattern.append(('symlist', it, axis))
       elif isinstance(it, VList):
         # list of ints: advanced index
         is_view = False
@@ -197,6 +211,8 @@ class NP:
           tot = ist.shape.size()
           p.assume(cnt >= 0)
           p.assume(cnt <= tot)
+          if ist.tag and ist.tag[0] == 'min-count':
+            p.assume(cnt >= ist.tag[1])
           if adv_dims is None:
             adv_dims, adv_pos = [cnt], len(out_dims)
           pattern.append(('mask', it, axis))
@@ -406,7 +422,12 @@ class NP:
       term = TH.cmps(flip)(rt, ls)
     elif lt is not None and rt is not None:
       term = TH.cmpa(name)(lt, rt)
-    return cx.new(term, dims, 'b')
+    res = cx.new(term, dims, 'b')
+    if name == 'eq' and isinstance(l, VArr) and rs is not None and cx.st(l).tag and cx.st(l).tag[0] == 'uniq-inv':
+      m = cx.st(l).tag[1]
+      c = z3.ToInt(rs) if rs.sort() == z3.RealSort() else rs
+      cx.p.store[res.loc] = cx.p.store[res.loc].replace(tag=('min-count', z3.If(z3.And(c >= 0, c < m), 1, 0)))
+    return res
 
   def contains(self, cx, container, item):
     return None
@@ -532,6 +553,8 @@ def install(lib):
       raise Unsupported('len of 0-d / symbolic-rank array')
     if isinstance(v, VSet):
       return VInt(v.card)
+    if isinstance(v, VListRef):
+      return VInt(cx.p.lists[v.lid]['n'])
     raise Unsupported('len of %r' % (v,))
 
   def _minmax(name):
@@ -717,6 +740,8 @@ def install(lib):
     v = a[0]
     if isinstance(v, (VList, VTuple)):
       return VList(list(v.items))
+    if isinstance(v, VListRef):
+      return v
     return VOpaque('list(%s)' % type(v).__name__)
 
   @ext('builtins.set')
